@@ -40,6 +40,7 @@ def gen_inputs(ctx):
         out.append(("gen%d" % i, pdbgen.text(lines)))
     # a disulfide bridge (non-titrating cysteines stay out of every charge curve) and same-label twin residues
     out.append(("ss-bridge", pdbgen.text(pdbgen.ss_fragment())))
+    out.append(("nterm-asp", pdbgen.text(pdbgen.nterm_asp_fragment())))
     for i in range(2 if ctx.quick() else 20):
         for _ in range(200):
             lines, ids = pdbgen.multichain(rnd, nchains=rnd.randint(1, 2), separation=15.0)
